@@ -7,7 +7,7 @@ Op lines (numbers are decimal naturals, `-` = none):
   quota id=<n> parent=<n|-> max=<n> win=<ns> gh=<n|-> [cc=<n|->] [sp=<n>] [wu=second|minute|hour|day|month]
                                                             ids must be 0,1,2,… in order
   quota id=<n> parent=<n> pct=<1..100>                      allocation_percentage child
-  start level=<1|2> t=<ns>
+  start level=<1|2> t=<ns> [lim=<q,q,…>] [fv=<0..3>]
   inc|allowed|dec|req q=<n> r=<n> t=<ns> hdrs=<-|i:v,i:v,…> [costs=<-|i:enc,…>]
                                                               v = d ("default") or a number ≥ 1; enc = text of x-c<i>
   counters q=<n> t=<ns> groups=<g,g,…>                         g = 0 ("default") or a number ≥ 1
@@ -67,23 +67,32 @@ def parseHdrs (s : String) : Option Hdrs :=
       | _, _ => none
     | _, _ => none
 
-/-- `costs=i:enc,…`: readings of the counter-value headers `x-c<i>` (enc = percent-encoded text). -/
-def parseCosts (s : String) : Option Hdrs :=
+/-- Optional white space around a header value is dropped when the request comes in through HAProxy
+    (`utils.ParseHeaders` = `textproto.ReadMIMEHeader`); the quota API gets the header map as it is. -/
+def trimOWS (s : String) : String :=
+  let isWs := fun (c : Char) => c == ' ' || c == '\t'
+  String.ofList ((s.toList.dropWhile isWs).reverse.dropWhile isWs).reverse
+
+/-- `costs=i:enc,…`: readings of the counter-value headers `x-c<i>` (enc = percent-encoded text);
+    `viaProxy` = the request enters through the SPOE message (engine level). -/
+def parseCosts (viaProxy : Bool) (s : String) : Option Hdrs :=
   if s == "-" then some [] else
   (s.splitOn ",").foldl (init := some []) fun acc item =>
     match acc, item.splitOn ":" with
     | some l, [i, v] =>
       match i.toNat? with
-      | some i => some ((costKey i, parseCost (pctDec v)) :: l)
+      | some i =>
+        let text := if viaProxy then trimOWS (pctDec v) else pctDec v
+        some ((costKey i, parseCost text) :: l)
       | none => none
     | _, _ => none
 
 /-- All headers of an op line: group headers and (optional) counter-value headers. -/
-def parseAllHdrs (ws : List String) : Option Hdrs := do
+def parseAllHdrs (viaProxy : Bool) (ws : List String) : Option Hdrs := do
   let h ← (kv ws "hdrs").bind parseHdrs
   match kv ws "costs" with
   | none => pure h
-  | some cs => let c ← parseCosts cs; pure (c ++ h)
+  | some cs => let c ← parseCosts viaProxy cs; pure (c ++ h)
 
 /-- `lim=a,b,…` of the start line: the quotas named by a user flow; absent = every quota. -/
 def parseLim (ws : List String) (n : Nat) : Option (List Nat) :=
@@ -135,9 +144,13 @@ def runStep (s : RunSt) (line : String) : RunSt × String :=
     | some l, some _ =>
       if s.level.isSome || (l != 1 && l != 2) then (s, "bad-op")
       else if !s.quotas.isEmpty && !s.badQuota && wellFormed ⟨s.quotas⟩ then
-        match parseLim ws s.quotas.length with
-        | some refs => ({ s with level := some l, okCfg := true, refs := refs }, "ok")
-        | none => (s, "bad-op")
+        -- `fv=<0..3>`: which request-rewriting processors surround the Limiter in the flows (no effect on verdicts)
+        let fvOk := match kv ws "fv" with
+          | none => true
+          | some v => (match v.toNat? with | some n => n ≤ 3 | none => false)
+        match parseLim ws s.quotas.length, fvOk with
+        | some refs, true => ({ s with level := some l, okCfg := true, refs := refs }, "ok")
+        | _, _ => (s, "bad-op")
       else ({ s with level := some l, okCfg := false }, "err:cfg")
     | _, _ => (s, "bad-op")
   | "counters" :: ws =>
@@ -159,7 +172,7 @@ def runStep (s : RunSt) (line : String) : RunSt × String :=
       match kvNat ws "q", kvNat ws "t" with
       | some q, some t =>
         if !(s.level.isSome && s.okCfg) then (s, "err:nostart")
-        else match kvNat ws "r", parseAllHdrs ws with
+        else match kvNat ws "r", parseAllHdrs (s.level == some 2) ws with
           | some r, some h =>
             if s.quotas[q]?.isNone then (s, "err:noquota")
             else if s.level == some 2 && kind != .req then (s, "err:level")
@@ -196,7 +209,7 @@ def judgeStep (s : JudgeSt) (op out : String) : JudgeSt :=
     match parseKind k with
     | none => s
     | some kind =>
-      match kvNat ws "q", kvNat ws "t", kvNat ws "r", parseAllHdrs ws with
+      match kvNat ws "q", kvNat ws "t", kvNat ws "r", parseAllHdrs (s.level == 2) ws with
       | some q, some t, some r, some h =>
         if s.level == 2 then
           -- through the engine: the live system-flow increments happen first, then the limiter (if any)
